@@ -1758,8 +1758,8 @@ Proof.
   - split; [now rewrite Ha|unfold aio_lexp; lia].
 Qed.
 
-(* a frame of exactly the announced size passes the header check of every implementation/role, one octet more does not *)
-Lemma announced_frame_accepted c n tail :
+(* one octet more than the announced size is refused on the header by every implementation/role ... *)
+Lemma over_announced_rejected c n tail :
   512 <= c_max c <= 16777216 -> (c_impl c = Aio -> c_max c = gen_aio_default_max_length) ->
   recv_max c < n -> n < 16777216 ->
   snd (frame_feed c (FOpen [] None) (enc32 n ++ tail)) =
@@ -1768,6 +1768,18 @@ Proof.
   intros H Ha Hn Hn2. unfold frame_feed. destruct (c_impl c).
   - rewrite tx_recv_limit by lia. reflexivity.
   - rewrite aio_recv_limit by lia. reflexivity.
+Qed.
+
+(* ... and everything up to the announced size (below the 2^24 wrap of the length field) is delivered *)
+Lemma within_announced_accepted c p :
+  blen p <= recv_max c -> blen p < 16777216 -> recv_max c < 4294967296 ->
+  frame_feed c (FOpen [] None) (encode_frame p) = (FOpen [] None, [FFrame p]).
+Proof.
+  intros H1 H2 H3. unfold frame_feed. destruct (c_impl c).
+  - pose proof (tx_roundtrip (recv_max c) [p] [] H3) as R. cbn [map concat] in R. rewrite !app_nil_r in R.
+    rewrite R; [reflexivity|]. intros q [<-|[]]. exact H1.
+  - pose proof (aio_roundtrip (recv_max c) [p] []) as R. cbn [map concat] in R. rewrite !app_nil_r in R.
+    rewrite R; [reflexivity|]. intros q [<-|[]]. split; assumption.
 Qed.
 
 (* ---------------------------------------------------------------------------------------------------------- *)
